@@ -107,6 +107,12 @@ var c17Directed = [][]int{
 	{wApplySize, wApplyBC, wWriteSmall, wClose, wResetNew, wWriteBig, wClose, wResetSame, wClose},
 	{wApplyBS256, wWriteBig, wWriteBig, wWriteBig, wWriteBig, wFlush, wWriteSmall, wClose, wClose, wWriteSmall, wResetSame, wWriteSmall, wClose},
 	{wReadFrom, wClose, wResetNew, wReadFrom, wFlush, wClose, wResetSame, wApplyNoCC, wReadFrom, wClose},
+	// three and four epochs, options applied between Resets without a write, Flush with nothing pending
+	{wWriteSmall, wClose, wResetSame, wWriteBig, wClose, wResetSame, wWriteBlock, wClose, wResetNew, wWriteSmall, wClose},
+	{wApplyBC, wWriteSmall, wClose, wResetSame, wApplySize, wResetSame, wApplyBS256, wResetNew, wWriteBig, wFlush, wFlush, wClose},
+	{wFlush, wClose, wResetSame, wFlush, wFlush, wWriteSmall, wClose, wResetSame, wClose, wResetSame, wReadFrom, wClose},
+	{wWriteBlock, wFlush, wResetSame, wReadFrom, wClose, wResetNew, wReadFrom, wClose, wResetSame, wWriteBlock, wWriteSmall, wClose},
+	{wApplyNoCC, wClose, wResetSame, wApplyBC, wClose, wResetSame, wWriteBig, wClose, wClose, wResetSame, wWriteSmall, wFlush, wClose},
 }
 
 type c17Plan struct {
